@@ -41,6 +41,7 @@ type c17Layout struct {
 	Name  string   `json:"name"`
 	Files []string `json:"files"` // relative to the module root
 	Rel   bool     `json:"relative_spelling,omitempty"`
+	Spell string   `json:"spelling,omitempty"` // "", dotdot, dot, dslash : non-canonical spellings of the same files
 	Err   string   `json:"error_case,omitempty"` // "", "missing", "txt", "typeerror"
 }
 
@@ -176,6 +177,10 @@ func runC17(r *rep.Report, thorough bool) error {
 		{Name: "same-dir-two-files", Files: []string{"p/a.go", "p/b.go"}},
 		{Name: "three-levels", Files: []string{"a/b/c/x.go", "a/b/y.go", "a/z.go"}},
 		{Name: "relative-spelling", Files: []string{"rel1/a.go", "rel2/b.go"}, Rel: true},
+		{Name: "spelling-dotdot", Files: []string{"m1/a.go", "m2/b.go"}, Spell: "dotdot"},
+		{Name: "spelling-dot", Files: []string{"m1/a.go", "m1/sub/b.go"}, Spell: "dot"},
+		{Name: "spelling-double-slash", Files: []string{"m1/a.go", "m2/b.go"}, Spell: "dslash"},
+		{Name: "spelling-relative-dotdot", Files: []string{"m1/a.go", "m2/b.go"}, Spell: "dotdot", Rel: true},
 		{Name: "missing-file", Files: []string{"p/a.go", "p/nope.go"}, Err: "missing"},
 		{Name: "non-go-file", Files: []string{"p/a.go", "p/notes.txt"}, Err: "txt"},
 		{Name: "type-error", Files: []string{"bad/a.go"}, Err: "typeerror"},
@@ -196,7 +201,7 @@ func runC17(r *rep.Report, thorough bool) error {
 			}
 			files = append(files, strings.Join(parts, "/")+fmt.Sprintf("/f%d.go", rng.Intn(2)))
 		}
-		layouts = append(layouts, c17Layout{Name: fmt.Sprintf("random-%d", i), Files: files, Rel: rng.Intn(4) == 0})
+		layouts = append(layouts, c17Layout{Name: fmt.Sprintf("random-%d", i), Files: files, Rel: rng.Intn(4) == 0, Spell: []string{"", "", "dotdot", "dot", "dslash"}[rng.Intn(5)]})
 	}
 
 	for li, lay := range layouts {
@@ -227,6 +232,16 @@ func runC17(r *rep.Report, thorough bool) error {
 			args[i] = absFiles[i]
 			if lay.Rel {
 				args[i] = f
+			}
+			// non-canonical spellings of the same file
+			dir, base := filepath.Dir(args[i]), filepath.Base(args[i])
+			switch lay.Spell {
+			case "dotdot":
+				args[i] = dir + "/../" + filepath.Base(dir) + "/" + base
+			case "dot":
+				args[i] = dir + "/./" + base
+			case "dslash":
+				args[i] = dir + "//" + base
 			}
 		}
 		cwd, _ := os.Getwd()
